@@ -120,8 +120,8 @@ func genC08Val(r *Rng, kind string, mysql string) c08Val {
 		case "BIT":
 			i = i & 1
 		}
-		frag := i >= -(1<<53) && i <= 1<<53
-		return c08Val{fmt.Sprintf("i:%d", i), i, frag}
+		// (integers beyond 2^53 are exact too since the documents are read with json.Number)
+		return c08Val{fmt.Sprintf("i:%d", i), i, true}
 	case "float":
 		var f float64
 		switch r.Intn(6) {
@@ -401,7 +401,7 @@ func runC08(c *Ctx) {
 			c.Out.Case(cc.cid, "C08", fmt.Sprintf("col %s %d %s", ser, int(cc.jdbc), cc.val.tok), obs+" supported=?")
 			class := c08Class(ser, cc.jdbc, cc.cell.kind, cc.val)
 			c.Out.Oracle(cc.cid, eq && !strings.HasPrefix(obs, "panic"), class, fmt.Sprintf("%s %s jdbc=%d ser=%s comp=%q: %s", cc.cell.mysql, cc.val.tok, cc.jdbc, ser, comp, obs))
-			frag := cc.val.frag && !(ser == "protobuf" && cc.cell.kind == "time" && cc.val.v != nil)
+			frag := cc.val.frag
 			c.Out.Tag(cc.cid, fmt.Sprintf("nontrivial=%d fragment=%d hash=%s|%d|%s", b2i(cc.val.v != nil), b2i(frag), ser, int(cc.jdbc), cc.val.tok))
 			c.Out.Count("cell." + cc.cell.mysql + "/" + cc.cell.kind)
 			emitted++
@@ -568,32 +568,10 @@ func c08Single(mgr *base.BaseUndoLogManager, jdbc types.JDBCType, v interface{},
 	return fmt.Sprintf("%s eq=%d", sv, b2i(eq)), eq
 }
 
-// c08Class is the class predicate of the known findings (the same table as Lean's `supported`).
+// c08Class names the class of a cell that is not expected to round-trip.  Since the repairs in /repo (typed
+// decoding for both serializers, json.Number, base64 form for look-alike texts) every cell the generator produces
+// is expected to: no class is left (a text that is not valid UTF-8 cannot be in a utf8mb4 column and is not
+// generated).
 func c08Class(ser string, jdbc types.JDBCType, kind string, v c08Val) string {
-	if v.v == nil {
-		return "lossless"
-	}
-	switch kind {
-	case "bytes":
-		return "rawbytes_value"
-	case "time":
-		if ser == "protobuf" {
-			return "protobuf_time_as_string"
-		}
-	case "str":
-		s := v.v.(string)
-		if !utf8.ValidString(s) {
-			return "string_not_utf8"
-		}
-		if ser == "json" && s != "" {
-			if _, err := base64.StdEncoding.DecodeString(s); err == nil {
-				return "char_value_is_valid_base64"
-			}
-		}
-	case "int":
-		if !v.frag {
-			return "integer_beyond_2p53"
-		}
-	}
 	return "lossless"
 }
